@@ -29,7 +29,8 @@ LEAN = dict(
     theorems=[T + n for n in [
         "merge_empty_left", "merge_empty_right", "merge_assoc", "merge_list_concat", "merge_set_union",
         "merge_nested", "no_value_dropped", "conflict_raises", "later_wins", "from_to_partial",
-        "legacy_or_drops_falsy"]],
+        "legacy_or_drops_falsy", "merge_empty_left'", "merge_assoc_nested", "no_value_dropped_strict",
+        "conflict_is_value_error"]],
     drivers=["drv_par"],
 )
 
@@ -517,7 +518,8 @@ def _impl(case, tmp):
     snaps = [_snap(o, base) for o in objs]
     E = type(a)()
     chain = chain_at(cs)
-    tags.append("chain" if chain else "non-chain")
+    if not chain:
+        tags.append("non-chain")
     if any(s != "dict" for s in case["src"]):
         tags.append("src:" + "+".join(sorted(set(case["src"]))))
     for ow in (False, True):
@@ -771,11 +773,11 @@ def g_installed(rng, name):
 def gen_cases(ctx, scale=1.0):
     rng = ctx.rng
     cases = []
-    n = int((260 if ctx.quick else 6000) * scale)
+    n = int((1500 if ctx.quick else 12000) * scale)
     for i in range(n):
         fam = "pl" if rng.random() < 0.3 else "ms"
         r = rng.random()
-        classes = ("Par", "Chi", "Gch") if r < 0.75 else ("Par", "Chi", "Sib")
+        classes = ("Par", "Chi", "Gch") if r < 0.7 else ("Chi", "Sib") if r < 0.85 else ("Par", "Chi", "Sib")
         sparse = rng.choice([0.08, 0.15, 0.3, 0.5])
         srcs = [rng.choice(SRCS) for _ in range(3)] if rng.random() < 0.8 else ["dict"] * 3
         tops = ["Top"] * 3 if rng.random() < 0.85 else [rng.choice(["Top", "Top2"]) for _ in range(3)]
@@ -807,14 +809,14 @@ def gen_cases(ctx, scale=1.0):
             cases.append(dict(kind="triple", family="ms", ops=list(tr), src=["obj"] * 3))
         ctx.exhaustive_spaces.append("all 27^3 triples of partials over fields (i: int, l: list, k: Par|Chi) with 3 values per field incl. 0/[]/absent")
     # installed schemas
-    ni = int((60 if ctx.quick else 1200) * scale)
+    ni = int((300 if ctx.quick else 3000) * scale)
     for i in range(ni):
         name = rng.choice(sorted(INSTALLED))
         srcs = [rng.choice(["dict", "json", "yaml", "ctor"]) for _ in range(3)]
         cases.append(dict(kind="triple", family="inst:" + name, ops=[g_installed(rng, name) for _ in range(3)], src=srcs,
                           harvest=(rng.random() < 0.3)))
     # round trips of complete objects
-    nr = int((60 if ctx.quick else 1000) * scale)
+    nr = int((300 if ctx.quick else 3000) * scale)
     for i in range(nr):
         fam = "pl" if rng.random() < 0.3 else "ms"
         cases.append(dict(kind="roundtrip", family=fam, obj=g_top(rng, fam, 2, ("Par", "Chi", "Gch", "Sib"), complete=True, sparse=0.5)))
